@@ -238,7 +238,9 @@ pub fn worker(prop: &Prop, tier: Tier, seed: u64, runs: impl Iterator<Item = u64
         // a caught panic may have left thread-local engine / collector state inconsistent:
         // never run another scenario on this thread (the orchestrator starts a new worker
         // for the rest of the list)
-        if rep.poisoned || rep.violations.iter().any(|x| x.class.starts_with("panic@")) {
+        // ... and, more generally, after any violation: whatever went wrong may have left
+        // thread-local state (heap contents, counters) that the next scenario would inherit
+        if rep.poisoned || !rep.violations.is_empty() {
             // `_exit`: skip thread-local destructors (the collector would walk the leaked heap)
             unsafe extern "C" {
                 fn _exit(code: i32) -> !;
@@ -338,14 +340,21 @@ fn run_chunks(prop: &Prop, tier: Tier, seed: u64, lists: Vec<Vec<u64>>, jobs: us
         Arc::new((0..jobs).map(|_| (AtomicU64::new(0), AtomicU64::new(0))).collect());
     let start = Instant::now();
     let done = Arc::new(AtomicBool::new(false));
+    // set by the collector loop once enough violations were seen: the verdict cannot change any
+    // more and every violating run costs a worker restart
+    let stop = Arc::new(AtomicBool::new(false));
     let mut handles = vec![];
     for w in 0..jobs {
         let lists = lists.clone();
         let tx = tx.clone();
         let progress = progress.clone();
+        let stop = stop.clone();
         let id = prop.id.to_string();
         handles.push(std::thread::spawn(move || {
             loop {
+                if stop.load(Ordering::SeqCst) {
+                    break;
+                }
                 let Some(mut list) = lists.lock().expect("lock").pop() else { break };
                 while !list.is_empty() {
                     let arg = list.iter().map(u64::to_string).collect::<Vec<_>>().join(",");
@@ -426,6 +435,10 @@ fn run_chunks(prop: &Prop, tier: Tier, seed: u64, lists: Vec<Vec<u64>>, jobs: us
             }
         })
     };
+    let max_violations: usize =
+        std::env::var("VERIF_MAX_VIOLATIONS").ok().and_then(|s| s.parse().ok()).unwrap_or(300);
+    let known = load_known(prop.id);
+    let mut unknown_seen = 0usize;
     let mut c = Collected {
         reports: 0,
         faults: BTreeMap::new(),
@@ -465,11 +478,18 @@ fn run_chunks(prop: &Prop, tier: Tier, seed: u64, lists: Vec<Vec<u64>>, jobs: us
                     c.slowest.truncate(5);
                 }
                 for v in rep.violations {
+                    if known_match(&known, &v).is_none() {
+                        unknown_seen += 1;
+                    }
                     c.violations.push((run, v, sc.clone()));
+                }
+                if unknown_seen >= max_violations {
+                    stop.store(true, Ordering::SeqCst);
                 }
             }
             Msg::Died(run, why) => {
                 c.reports += 1;
+                unknown_seen += 1;
                 let class = if why.contains("signal: 9") { "hang" } else { "abort" };
                 c.violations.push((run, Violation { class: class.into(), detail: why }, None));
             }
@@ -565,7 +585,8 @@ pub fn check(prop: &Prop, tier: Tier) -> i32 {
             }
         }
     }
-    if !audit_mismatch.is_empty() {
+    let explained_by_violation = !c.violations.is_empty() || !audit.violations.is_empty();
+    if !audit_mismatch.is_empty() && !(explained_by_violation && !prop.nondeterminism_is_violation) {
         if prop.nondeterminism_is_violation {
             for run in &audit_mismatch {
                 c.violations.push((
